@@ -3,50 +3,24 @@
 //! One sub-command per property; prints a JSON report on stdout (or --out file).
 //! Verdicts are decided by the `check` driver from this report.
 
-mod c07;
-mod c08;
 mod c02;
-mod c11;
+mod c10;
 mod c12;
+mod c15;
+mod c17;
+mod c18;
+mod c20;
 mod codec;
 mod mutate;
 mod vtree;
-mod fields;
-mod framing;
-mod gen;
-mod mon;
-mod oracle;
-mod par;
-mod rng;
+
+// the serde-free part lives in the core crate (built with full optimisation); re-exported
+// here so that `crate::mon`, `crate::gen`, ... resolve in the modules of this crate
+pub use rtcm_verif_core::{c07, c08, c11, c14, c16, fields, framing, gen, io, mon, oracle, par, rng};
+pub use rtcm_verif_core::{Outcome, Params};
 
 use serde_json::{json, Value};
 use std::time::Instant;
-
-#[derive(Clone, Debug)]
-pub struct Params {
-    pub prop: String,
-    pub thorough: bool,
-    pub seed: u64,
-    pub profile: String,
-    pub workers: usize,
-}
-
-impl Params {
-    /// pick a size by tier
-    pub fn size(&self, quick: u64, thorough: u64) -> u64 {
-        let base = if self.thorough { thorough } else { quick };
-        // VERIF_SCALE (percent) lets the mutant runner shorten or lengthen runs
-        let pct: u64 = std::env::var("VERIF_SCALE").ok().and_then(|s| s.parse().ok()).unwrap_or(100);
-        (base * pct / 100).max(1)
-    }
-}
-
-pub struct Outcome {
-    pub ctx: mon::Ctx,
-    pub rule: String,
-    pub exhaustive: bool,
-    pub extra: Value,
-}
 
 fn usage() -> ! {
     eprintln!("usage: rtcm-verif <C01..C20|selftest> [--tier quick|thorough] [--seed N] [--out FILE] [--replay FILE]");
@@ -100,6 +74,45 @@ fn main() {
         std::process::exit(2);
     }
     let t0 = Instant::now();
+    if prop == "CORPUS" {
+        // corpus for the per-feature driver (C19): hex frames, one per line
+        let mut rng = rng::Rng::derive(seed, "corpus", 0);
+        let mut lines: Vec<String> = Vec::new();
+        let per: usize = if thorough { 12 } else { 4 };
+        for &n in gen::supported_numbers() {
+            for _ in 0..per {
+                if let Some(f) = gen::lib_frame_random(n, &mut rng) {
+                    lines.push(mon::hex(&f));
+                }
+            }
+            for _ in 0..per {
+                if let Some(f) = gen::lib_frame(n, &mut rng) {
+                    lines.push(mon::hex(&f));
+                }
+            }
+            let mut z = vec![0u8; gen::natural_len(n).max(2)];
+            oracle::bits::write(&mut z, 0, 12, n as u128);
+            lines.push(mon::hex(&oracle::crc::frame(&z)));
+            let mut z = vec![0u8; 2];
+            oracle::bits::write(&mut z, 0, 12, n as u128);
+            lines.push(mon::hex(&oracle::crc::frame(&z)));
+            for _ in 0..per {
+                let (f, _) = gen::wire_frame(&mut rng, n);
+                lines.push(mon::hex(&f));
+            }
+        }
+        for n in [0u16, 1, 1000, 1018, 1028, 1069, 1070, 1078, 1138, 1229, 1231, 1305, 4094, 4095] {
+            lines.push(mon::hex(&gen::any_number_frame(&mut rng, n, 20)));
+        }
+        lines.push(mon::hex(&oracle::crc::frame(&[])));
+        lines.push(mon::hex(&oracle::crc::frame(&[0x3E])));
+        let txt = lines.join("\n") + "\n";
+        match out {
+            Some(p) => std::fs::write(&p, txt).expect("write corpus"),
+            None => print!("{}", txt),
+        }
+        return;
+    }
     let outcome = if let Some(path) = replay {
         let txt = std::fs::read_to_string(&path).unwrap_or_else(|e| {
             eprintln!("cannot read replay file {}: {}", path, e);
@@ -154,6 +167,13 @@ fn dispatch(p: &Params) -> Outcome {
         "C11" => c11::run(p),
         "C02" => c02::run(p),
         "C12" => c12::run(p),
+        "C20" => c20::run(p),
+        "C17" => c17::run(p),
+        "C16" => c16::run(p),
+        "C15" => c15::run(p),
+        "C10" => c10::run(p),
+        "C14" => c14::run(p),
+        "C18" => c18::run(p),
         "C01" => codec::run(p, codec::Which::C01),
         "C09" => codec::run(p, codec::Which::C09),
         _ => {
@@ -171,6 +191,13 @@ fn dispatch_replay(p: &Params, v: &Value) -> Outcome {
         "C11" => c11::replay(p, v),
         "C02" => c02::replay(p, v),
         "C12" => c12::replay(p, v),
+        "C20" => c20::replay(p, v),
+        "C17" => c17::replay(p, v),
+        "C16" => c16::replay(p, v),
+        "C15" => c15::replay(p, v),
+        "C10" => c10::replay(p, v),
+        "C14" => c14::replay(p, v),
+        "C18" => c18::replay(p, v),
         "C01" => codec::replay(p, v, codec::Which::C01),
         "C09" => codec::replay(p, v, codec::Which::C09),
         _ => {
